@@ -328,6 +328,31 @@ func (c *wsfollow) Exec(op string) string {
 		case <-time.After(3 * wsWatch):
 			return "writers-still-blocked"
 		}
+	case len(w) == 3 && w[0] == "rrange":
+		// the same request through the REST route and the bundled client (path parameters as given)
+		off, e1 := strconv.Atoi(w[1])
+		lim, e2 := strconv.Atoi(w[2])
+		if e1 != nil || e2 != nil {
+			return "bad-op"
+		}
+		host, portS, _ := strings.Cut(c.addr, ":")
+		port, _ := strconv.Atoi(portS)
+		cl := client.NewTcpClient(host, port, 100)
+		res := make(chan string, 1)
+		go func() {
+			l, err := cl.GetProcessLog("a", off, lim)
+			if err != nil {
+				res <- "error"
+				return
+			}
+			res <- "lines=" + compress(l)
+		}()
+		select {
+		case s := <-res:
+			return s
+		case <-time.After(wsWatch):
+			return "blocked"
+		}
 	case len(w) == 3 && w[0] == "range":
 		off, e1 := strconv.Atoi(w[1])
 		lim, e2 := strconv.Atoi(w[2])
@@ -336,6 +361,11 @@ func (c *wsfollow) Exec(op string) string {
 		}
 		res := make(chan string, 1)
 		go func() {
+			defer func() {
+				if e := recover(); e != nil {
+					res <- "panic"
+				}
+			}()
 			l, err := c.r.GetProcessLog("a", off, lim)
 			if err != nil {
 				res <- "error"
@@ -484,6 +514,15 @@ func (c *wsfollow) Gen(r *rand.Rand, tier string, emit func(string)) {
 		emit("sub f 2 1")
 		emit("w 3")
 		emit("got f")
+	}
+	// range requests with extreme numbers, on the runner and through the REST route
+	emit("wsnew 100")
+	emit("w 7")
+	for _, o := range []string{"3", "0", "9223372036854775807", "-9223372036854775808", "7"} {
+		for _, l := range []string{"9223372036854775807", "-9223372036854775808", "2", "0"} {
+			emit(fmt.Sprintf("range %s %s", o, l))
+			emit(fmt.Sprintf("rrange %s %s", o, l))
+		}
 	}
 	// a follower that stops reading (known finding B1): the writer must not be held up
 	emit("wsnew 100")
